@@ -23,6 +23,7 @@ Reading guide
 * `pjPairs`, `dedupeFirst` the `duplicates` loop of fn:parse-json and the F&O specification of `use-first`
 -/
 import EPV.Lemmas.JsonXml
+import EPV.Lemmas.JsonXmlDup
 import EPV.Lemmas.JsonDup
 import EPV.Lemmas.JsonXmlText
 import EPV.Lemmas.JsonEscapeOpt
@@ -166,6 +167,42 @@ example : (JValue.obj [([97, 34, 47], .arr [.null, .int (-12), .dbl ⟨false, [1
 example : (jsonToXml (.dbl ⟨false, [1], 3⟩)).bind (xmlToJson id) = .ok [49, 48, 48] := by rfl
 example : (jsonToXml (.dbl ⟨true, [0], 1⟩)).bind (xmlToJson id) = .ok [45, 48] := by rfl
 example : (jsonToXml (.int (10 ^ 20))).bind (xmlToJson id) = .ok [49, 101, 43, 50, 48] := by rfl
+
+/-- `xml-to-json(json-to-xml(t, map{'duplicates': p}))` over the JSON value model WITH the `duplicates`
+option, duplicate keys allowed.  For every value `v` (any nesting, XML strings, normal-form doubles, numbers that
+are doubles) and
+* `p = use-first`, whatever keys `v` has: the composition succeeds and denotes the value `dfa v` — `v` with the F&O
+  `use-first` policy applied in every object, which is the specification's `dedupeAll .useFirst v`;
+* `p = retain` (the default) or `p = reject`, for `v` with distinct keys in every object (`x2jDom`): it denotes `v`
+  itself (`dfa v = v`).
+(With duplicate keys `retain` ends in FOJS0006 from xml-to-json and `reject` in FOJS0003 from json-to-xml, as F&O
+prescribes: kernel-checked examples below.  The `escape` option is `escape_option_roundtrip`, string level.) -/
+theorem xml_to_json_of_json_to_xml (rnd : Dec → Dec) (p : DupPolicy) (v : JValue)
+    (hv : v.validWith isXmlCodepoint wfDec = true) (hr : v.numsFixed rnd)
+    (hp : p = .useFirst ∨ ((p = .retain ∨ p = .reject) ∧ v.x2jDom = true)) :
+    dedupeAll .useFirst v = some (dfa v) ∧
+    ∃ t w, (jsonToXml v p).bind (xmlToJson rnd) = .ok t ∧ parseJson t = some w ∧ SameValue (dfa v) w := by
+  refine ⟨dedupeAll_first v, ?_⟩
+  rcases hp with rfl | ⟨hp, hd⟩
+  · have e : jsonToXml v .useFirst = jsonToXml (dfa v) .retain := toElem_useFirst v none
+    rw [e]
+    exact json_xml_roundtrip rnd (dfa v) (dfa_dom v hv) (dfa_fixed rnd v hr)
+  · rw [dfa_id v hd]
+    rcases hp with rfl | rfl
+    · exact json_xml_roundtrip rnd v hd hr
+    · have e : jsonToXml v .reject = jsonToXml v .retain := toElem_reject v hd none
+      rw [e]
+      exact json_xml_roundtrip rnd v hd hr
+
+/-- the hypotheses of `xml_to_json_of_json_to_xml` on a value WITH duplicate keys (tests on literals):
+`{"a":1,"b":{"x":1.5,"x":2},"a":[3]}` with use-first gives `{"a":1,"b":{"x":1.5}}`; reject gives FOJS0003 -/
+example : (JValue.obj [([97], .int 1), ([98], .obj [([120], .dbl ⟨false, [1, 5], 1⟩), ([120], .int 2)]),
+      ([97], .arr [.int 3])]).validWith isXmlCodepoint wfDec = true ∧
+    (jsonToXml (.obj [([97], .int 1), ([98], .obj [([120], .dbl ⟨false, [1, 5], 1⟩), ([120], .int 2)]),
+      ([97], .arr [.int 3])]) .useFirst).bind (xmlToJson id) =
+      .ok [123, 34, 97, 34, 58, 49, 44, 34, 98, 34, 58, 123, 34, 120, 34, 58, 49, 46, 53, 125, 125] ∧
+    (jsonToXml (.obj [([97], .int 1), ([97], .int 2)]) .reject).bind (xmlToJson id) = .error .FOJS0003 :=
+  ⟨by decide, by rfl, by rfl⟩
 
 /-- duplicate keys are kept by json-to-xml (default `duplicates: retain`) and rejected by xml-to-json
 with FOJS0006, as F&O 17.4/17.5 prescribe (test on literals) -/
